@@ -14,6 +14,7 @@
 
 #include "common/verif.h"
 #include "ref/ref_unicode.h"
+#include "ref/ref_codecs.h"
 
 using verif::Case;
 
@@ -119,7 +120,7 @@ void run_op(const Pool &P, const Op &op, Local &L, Digest &D) {
     } break;
     case 30: D.str(ST::format_latin_1("{}|{>10}|{x}", P.cb[op.a % Pool::N].c_str(), "\xE9t\xE9", (int)op.b)); break;
     case 31: { std::ostringstream os; ST::writef(os, "{} {<20} {.3f}", S, T, kDoubles[op.c % 12]); os << ' ' << S; std::string r = os.str(); D.bytes(r.data(), r.size()); } break;
-    case 32: { char *mb = nullptr; size_t ms = 0; FILE *fp = open_memstream(&mb, &ms); if (fp) { ST::printf(fp, "{}:{_->15}:{e}", (int)op.b, S, kDoubles[op.c % 12]); fclose(fp); D.bytes(mb, ms); free(mb); } } break;
+    case 32: { char *mb = nullptr; size_t ms = 0; FILE *fp = open_memstream(&mb, &ms); if (fp) { static const char *const pf[] = {"{}:{_->15}:{e}", "{_*>9}:{_#<40}:{f}", "{_.>6}:{_=>33}:{E}", "{>7}:{_~<21}:{_0>12}"}; ST::printf(fp, pf[op.a % 4], (int)op.b, S, kDoubles[op.c % 12]); fclose(fp); D.bytes(mb, ms); free(mb); } } break;
     case 33: D.str(ST::string::from_int((int)op.b * 7919 - 500000, 2 + op.c % 35, (op.a & 1) != 0)); D.str(ST::string::from_uint(0xFFFFFFFFFFFFFFFFull >> (op.b % 64), 2 + op.a % 35)); break;
     case 34: D.str(ST::string::from_double(kDoubles[op.b % 12], "gfeE"[op.c % 4])); D.str(ST::string::from_float((float)kDoubles[op.a % 12])); D.str(ST::string::from_bool((op.c & 1) != 0)); break;
     case 35: L.acc += S; L.acc += needle; if (L.acc.size() > 600) L.acc = L.acc.right(50); D.str(L.acc); break;
@@ -176,8 +177,9 @@ void build_pool(verif::Reader &r, Pool &P) {
         std::u32string s32(sc.begin(), sc.end());
         P.b16[i] = ST::utf16_buffer(s16.data(), s16.size());
         P.b32[i] = ST::utf32_buffer(s32.data(), s32.size());
-        P.hex[i] = ST::hex_encode(b.data(), b.size());
-        P.b64[i] = ST::base64_encode(b.data(), b.size());
+        // encoded with the reference codecs: nothing the threads will use may be warmed up on the main thread first
+        { std::string h = ref::hex_encode((const uint8_t *)b.data(), b.size()), e = ref::b64_encode((const uint8_t *)b.data(), b.size());
+          P.hex[i] = ST::string::from_validated(h.data(), h.size()); P.b64[i] = ST::string::from_validated(e.data(), e.size()); }
     }
 }
 
@@ -210,11 +212,7 @@ int verif_case(const uint8_t *data, size_t size, Case &c) {
         c.text += progs[0].size() > 12 ? ",..] (" + std::to_string(progs[0].size()) + " ops in thread 0)" : "]";
         c.text += " pool sizes=["; for (int i = 0; i < Pool::N; i++) { if (i) c.text += ","; c.text += std::to_string(P->s[i].size()); } c.text += "]";
     }
-    // alone
-    std::vector<uint64_t> expect(nprog);
-    for (unsigned p = 0; p < nprog; p++) expect[p] = run_program(*P, progs[p]);
-    for (unsigned p = 0; p < nprog; p++) if (run_program(*P, progs[p]) != expect[p]) { delete P; return c.fail("a program run twice alone gives two different digests (harness not deterministic)"); }
-    // together
+    // together (first: see below)
     enum { ROUNDS = 4 };
     std::atomic<unsigned> arrived[ROUNDS];
     for (auto &a : arrived) a.store(0);
@@ -231,6 +229,11 @@ int verif_case(const uint8_t *data, size_t size, Case &c) {
             }
         });
     for (auto &x : th) x.join();
+    // alone - AFTER the threads: whatever the library builds on first use (tables, caches) is first touched by the concurrent
+    // phase, in every process and for every operation kind, so ThreadSanitizer sees unsynchronised first-use initialisation
+    std::vector<uint64_t> expect(nprog);
+    for (unsigned p = 0; p < nprog; p++) expect[p] = run_program(*P, progs[p]);
+    for (unsigned p = 0; p < nprog; p++) if (run_program(*P, progs[p]) != expect[p]) { delete P; return c.fail("a program run twice alone gives two different digests (harness not deterministic)"); }
     std::string why;
     for (unsigned t = 0; t < nthreads && why.empty(); t++)
         for (int round = 0; round < ROUNDS; round++)
